@@ -362,15 +362,21 @@ pub struct World {
     guard_ticks: std::sync::atomic::AtomicU64,
     guard_abort: std::sync::atomic::AtomicBool,
     guard_notify: Notify,
+    guard_limit: u64,
 }
 
 /// ticks (200 ms each, stalls of the whole process not counted) after which a run that has not
 /// ended by itself is cut: virtual time stands still in a livelock, so nothing inside the
 /// simulation would ever end it
-const GUARD_TICKS: u64 = 25;
-/// once a run of this process has been cut, later runs are cut sooner (a tree that livelocks does so
-/// in many runs; each would cost five seconds)
+const GUARD_TICKS: u64 = 50;
+/// a run that was cut is executed once more under a much longer limit before the cut counts: a
+/// loaded host can make a healthy run of a heavy scenario (a thousand PDUs at one instant) take
+/// seconds, a livelock never ends
+const GUARD_TICKS_CONFIRM: u64 = 150;
+/// once a livelock has been confirmed in this process, later runs are cut sooner (a tree that
+/// livelocks does so in many runs; each would cost a minute otherwise)
 const GUARD_TICKS_AFTER_A_CUT: u64 = 8;
+const GUARD_TICKS_CONFIRM_AFTER_A_CUT: u64 = 12;
 static GUARD_CUTS: std::sync::atomic::AtomicU64 = std::sync::atomic::AtomicU64::new(0);
 
 /// one thread per process ticks every world in progress; a run is only disturbed (one wake-up of its
@@ -390,8 +396,7 @@ fn start_ticker() {
                 let worlds: Vec<Arc<World>> = LIVE_WORLDS.lock().unwrap().iter().filter_map(|w| w.upgrade()).collect();
                 for w in worlds {
                     let t = w.guard_ticks.fetch_add(1, std::sync::atomic::Ordering::Relaxed) + 1;
-                    let limit = if GUARD_CUTS.load(std::sync::atomic::Ordering::Relaxed) > 0 { GUARD_TICKS_AFTER_A_CUT } else { GUARD_TICKS };
-                    if t >= limit {
+                    if t >= w.guard_limit {
                         w.guard_abort.store(true, std::sync::atomic::Ordering::Relaxed);
                         w.guard_notify.notify_one();
                     }
@@ -1223,7 +1228,23 @@ pub fn auto_horizon_us(sc: &Scenario) -> u64 {
 }
 
 /// Execute one scenario to completion in the calling thread and return its recorded history.
+/// Execute one scenario. A run that the wall-clock guard had to cut is executed once more under a
+/// much longer limit; only a run that is cut again is returned as cut (step budget flag set).
 pub fn run(sc: &Scenario, root: &Utf8PathBuf, opts: &RunOpts) -> RunRecord {
+    let confirmed_before = GUARD_CUTS.load(std::sync::atomic::Ordering::Relaxed) > 0;
+    let (first, confirm) = if confirmed_before { (GUARD_TICKS_AFTER_A_CUT, GUARD_TICKS_CONFIRM_AFTER_A_CUT) } else { (GUARD_TICKS, GUARD_TICKS_CONFIRM) };
+    let (rec, cut) = run_inner(sc, root, opts, first);
+    if !cut {
+        return rec;
+    }
+    let (rec2, cut2) = run_inner(sc, root, opts, confirm);
+    if cut2 {
+        GUARD_CUTS.fetch_add(1, std::sync::atomic::Ordering::Relaxed);
+    }
+    rec2
+}
+
+fn run_inner(sc: &Scenario, root: &Utf8PathBuf, opts: &RunOpts, guard_limit: u64) -> (RunRecord, bool) {
     let sc = Arc::new(sc.clone());
     PANICS.with(|p| p.borrow_mut().clear());
     PUT_REPLIES.with(|r| r.borrow_mut().clear());
@@ -1287,7 +1308,7 @@ pub fn run(sc: &Scenario, root: &Utf8PathBuf, opts: &RunOpts) -> RunRecord {
 
     let horizon_us = auto_horizon_us(&sc);
 
-    let (world, probes, daemon_alive, end_vt) = rt.block_on(async {
+    let (world, probes, daemon_alive, end_vt, cut_by_guard) = rt.block_on(async {
         let t0 = Instant::now();
         let mut blackouts = vec![];
         let mut pending = vec![];
@@ -1380,6 +1401,7 @@ pub fn run(sc: &Scenario, root: &Utf8PathBuf, opts: &RunOpts) -> RunRecord {
             guard_ticks: std::sync::atomic::AtomicU64::new(0),
             guard_abort: std::sync::atomic::AtomicBool::new(false),
             guard_notify: Notify::new(),
+            guard_limit,
         });
 
         start_ticker();
@@ -1537,7 +1559,6 @@ pub fn run(sc: &Scenario, root: &Utf8PathBuf, opts: &RunOpts) -> RunRecord {
                 // step budget; what was recorded so far is kept.
                 let mut g = world.inner.lock().unwrap();
                 g.step_budget_hit = true;
-                GUARD_CUTS.fetch_add(1, std::sync::atomic::Ordering::Relaxed);
                 world.push(&mut g, EvKind::Note { msg: "run cut by the wall-clock guard: no progress of virtual time".into() });
                 cut_by_guard = true;
                 break;
@@ -1650,7 +1671,7 @@ pub fn run(sc: &Scenario, root: &Utf8PathBuf, opts: &RunOpts) -> RunRecord {
         for h in aux {
             h.abort();
         }
-        (world, probes, daemon_alive, end_vt)
+        (world, probes, daemon_alive, end_vt, cut_by_guard)
     });
     drop(rt);
 
@@ -1706,6 +1727,7 @@ pub fn run(sc: &Scenario, root: &Utf8PathBuf, opts: &RunOpts) -> RunRecord {
             guard_ticks: std::sync::atomic::AtomicU64::new(0),
             guard_abort: std::sync::atomic::AtomicBool::new(false),
             guard_notify: Notify::new(),
+            guard_limit: 0,
         }
     });
     let inner = world.inner.into_inner().unwrap();
@@ -1713,23 +1735,26 @@ pub fn run(sc: &Scenario, root: &Utf8PathBuf, opts: &RunOpts) -> RunRecord {
     if !opts.keep_fs {
         let _ = std::fs::remove_dir_all(root);
     }
-    RunRecord {
-        sc,
-        events: inner.events,
-        puts: inner.puts,
-        probes,
-        daemon_alive,
-        end_vt,
-        horizon_us,
-        counts: inner.counts,
-        panics,
-        step_budget_hit: inner.step_budget_hit,
-        sentinel_ok,
-        sentinel_note,
-        root: root.to_string(),
-        fs_final,
-        fs_initial,
-    }
+    (
+        RunRecord {
+            sc,
+            events: inner.events,
+            puts: inner.puts,
+            probes,
+            daemon_alive,
+            end_vt,
+            horizon_us,
+            counts: inner.counts,
+            panics,
+            step_budget_hit: inner.step_budget_hit,
+            sentinel_ok,
+            sentinel_note,
+            root: root.to_string(),
+            fs_final,
+            fs_initial,
+        },
+        cut_by_guard,
+    )
 }
 
 /// digest of everything in <root>/jail outside the entity roots
